@@ -4,17 +4,24 @@ import math
 from harness import dtwgen
 
 COQ_FILES = ["theories/BandTie.v", "theories/PyWps.v", "theories/PyWpsProofs.v", "gen/Gen_cfill.v", "gen/Gen_cexpand.v",
-             "theories/CFill.v", "theories/CExpand.v", "theories/CFillSim.v", "props/C04.v"]
+             "theories/CFill.v", "theories/CExpand.v", "theories/CFillSim.v", "gen/Gen_pywps.v", "theories/PyWpsGen.v", "props/C04.v"]
 THEOREMS = [("DVProps.C04", "C04_cell_lower_bound"), ("DVProps.C04", "C04_cell_attained"),
             ("DVProps.C04", "C04_matrix_shape"), ("DVProps.C04", "C04_out_of_band_inf"),
             ("DVProps.C04", "C04_code_matrix_is_spec"), ("DVProps.C04", "C04_code_matrix_with_bound"),
             ("DVProps.C04", "C04_code_value"), ("DVProps.C04", "C04_c_fill_and_expand_agree_on_the_slot"),
             ("DVProps.C04", "C04_c_fill_stores_the_matrix"), ("DVProps.C04", "C04_c_recurrence_texts"),
-            ("DVProps.C04", "C04_c_fill_rows_store_the_matrix")]
+            ("DVProps.C04", "C04_c_fill_rows_store_the_matrix"), ("DVProps.C04", "C04_py_warping_paths_fill_as_written"),
+            ("DVProps.C04", "C04_py_warping_paths_fill_as_written_with_bound")]
 TRUSTED_BASE = [
     "Coq 8.16.1 kernel (no native_compute)",
     "tools/translate_py.py (band expressions of dtw.warping_paths regenerated into coq/gen/Gen_dtw.v)",
     "extraction (ExtrOcamlBasic only) + coq/extract/driver.ml",
+    "tools/pyfun.py: the body of dtw.warping_paths from the length test to the end of the row loop is regenerated "
+    "(Gen_pywps.v: NumPy matrix as a flat row-major list, both coordinates of every 2-D subscript checked, pruning "
+    "bookkeeping) and PROVED to fill the matrix of the hand model cell by cell with no subscript out of range "
+    "(C04_py_warping_paths_fill_as_written[_with_bound]); the part after the row loop (result transform, end-of-series "
+    "scans with NumPy slices, -1 marks) stays hand-modelled; the extracted fill is compared with the matrix "
+    "dtw.warping_paths returns (oracle command pywpsgen)",
     "dtw.warping_paths is modelled as written (PyWps.wps_code_model: band from the regenerated expressions, pruning "
     "bookkeeping, borders, end scans) and PROVED against the specification (C04_code_matrix_is_spec / _with_bound / "
     "_code_value); the hand model is tied to the code by correspondence: value and EVERY cell, pruned cells included "
@@ -88,6 +95,22 @@ def expected(cases, oracle):
             d, mt = a.split(" | ")
             out[k]["code"] = {"d": math.inf if d == "inf" else int(d),
                               "m": [[math.inf if t == "inf" else int(t) for t in row.split()] for row in mt.split(" ; ")]}
+    # the fill part of dtw.warping_paths as REGENERATED from dtw.py (Gen_pywps.v, proved equal to the as-written model)
+    rlines = []
+    for k in idx:
+        adj, _ = _bounds(cases[k])
+        rlines.append(dtwgen.oracle_line("pywpsgen %d" % (-1 if adj is None else adj), cases[k]))
+    for k, a in zip(idx, oracle.query(rlines)):
+        if not isinstance(out[k].get("code"), dict) or "err" in out[k]["code"]:
+            continue
+        if a.startswith("ERR"):
+            out[k]["code"]["regen"] = {"err": a}
+        elif a.startswith("none"):
+            out[k]["code"]["regen"] = None
+        else:
+            mt, okflag = a.rsplit(" | ", 1)
+            out[k]["code"]["regen"] = {"ok": okflag == "ok",
+                                       "m": [[math.inf if t == "inf" else int(t) for t in row.split()] for row in mt.split(" ; ")]}
     # the compact array as the model of the C fill loops leaves it (CFillSim.stored_rows), for cases without a bound
     idx, lines = [], []
     for k, c in enumerate(cases):
@@ -340,6 +363,21 @@ def judge_as_written(case, code, g):
                 continue
             if float(x) != _transform(y, case):
                 return {"kind": "as-written-model-differs:cell", "cell": [i, j], "got": float(x), "model": _transform(y, case)}
+    rg = code.get("regen")
+    if isinstance(rg, dict):
+        if "err" in rg:
+            return {"kind": "oracle-error", "detail": rg["err"]}
+        if not rg["ok"]:
+            return {"kind": "regenerated-fill-reports-bad-subscript"}
+        if len(m) != len(rg["m"]) or any(len(a) != len(b) for a, b in zip(m, rg["m"])):
+            return {"kind": "regenerated-fill-differs-from-code:shape"}
+        for i, (ra, rb) in enumerate(zip(m, rg["m"])):
+            for j, (x, y) in enumerate(zip(ra, rb)):
+                if case.get("psi_neg") and float(x) == -1:
+                    continue
+                if float(x) != _transform(y, case):
+                    return {"kind": "regenerated-fill-differs-from-code:cell", "cell": [i, j], "got": float(x),
+                            "regenerated": _transform(y, case)}
     if code.get("marks") is not None:
         got = sorted([i, j] for i, row in enumerate(m) for j, x in enumerate(row) if float(x) == -1)
         if got != code["marks"]:
